@@ -17,6 +17,7 @@ mod c34;
 mod c10;
 mod c42;
 mod c43;
+mod c11;
 mod c05;
 mod c26;
 mod c27;
@@ -87,6 +88,7 @@ fn main() {
         "C10" => c10::main(tier, replay.clone()),
         "C42" => c42::main(tier, replay.clone()),
         "C43" => c43::main(tier, replay.clone()),
+        "C11" => c11::main(tier, replay.clone()),
         "C05" => c05::main(tier, replay.clone()),
         "C26" => c26::main(tier, replay.clone()),
         "C27" => c27::main(tier, replay.clone()),
